@@ -30,6 +30,11 @@ CompactProg(pr) == [f \in DOMAIN pr |-> [i \in 1 .. Len(pr[f]) |-> OpStr(pr[f][i
 \* set of printed behaviours exercises every (state, operation) pair of the model.  Always TRUE.
 EmitStep == PrintT("STEP " \o ToJson([prog |-> CompactProg(prog'), evs |-> CompactEvs(evs'), end |-> end', bad |-> bad']))
 
+\* "never spins" (C08) at design level: every step appends to the event history, so with the histories in the
+\* fingerprint (no VIEW: MC_Sched_noview.cfg) the behaviour graph is a tree, and the exhaustive search terminates
+\* exactly when the as-is scheduler has no infinite behaviour for any program within the bounds
+HistoryGrows == [][end' = "run" => Len(evs') > Len(evs)]_vars      \* (a step into a terminal state may be silent: the VM panics before the hook)
+
 \* FocusMode: print the finished behaviours in which the search skipped a stale entry and hit a live waiter
 EmitFocus == (end' # "run" /\ focus') =>
   PrintT("STEP " \o ToJson([prog |-> CompactProg(prog'), evs |-> CompactEvs(evs'), end |-> end', bad |-> bad']))
